@@ -117,7 +117,8 @@ func (f *SubscriptionFieldFilter) SkipEvent(ctx *Context, data []byte) (bool, er
 
 				switch f.Values[i].Segments[0].SegmentType {
 				case VariableSegmentType:
-					value := ctx.Variables.Get(f.Values[i].Segments[0].VariableSourcePath...)
+					// the path starts with the canonical variable name: the view maps it to the client's name
+					value := ctx.VariablesView().Get(f.Values[i].Segments[0].VariableSourcePath...)
 					if value == nil {
 						return true, nil
 					}
